@@ -31,6 +31,47 @@ def cont_coords(pos, Lf, Lt, cg):
     return [pstr(pos, False), pstr(pos + ref, pos + ref == Lf), "0", pstr(Lt, True)]
 
 
+def check_e(case):
+    """GFA2 -> GFA1 of one dovetail / containment E line whose sid1 is the GFA1 'to' segment or the contained one"""
+    _, lines, expect = case
+    fails = []
+    def fail(sig, what):
+        fails.append(dict(signature="C06:" + sig, what=what, case=dict(lines=lines),
+                          reproducer="import gfapy\ng = gfapy.Gfa(%r, vlevel=1)\nprint(g.to_gfa1())" % (lines,)))
+    try:
+        g = gfapy.Gfa(lines, vlevel=1)
+        g1 = g.to_gfa1()
+        t1 = str(g1)
+        gfapy.Gfa(t1, vlevel=3).validate()
+        _, recs = oracle.parse_text(t1, "gfa1")
+        got = [r for r in recs if r.rt in ("L", "C")]
+        if len(got) != 1:
+            fail("e-to-gfa1:edge-lost", t1)
+        else:
+            r = got[0]
+            if [r.rt] + r.pos != expect:
+                kind = "overlap" if ([r.rt] + r.pos)[:5] == expect[:5] else "ends"
+                fail("e-to-gfa1:%s-differ" % kind, "want %s got %s" % (expect, [r.rt] + r.pos))
+            # there and back: the E line comes back with the same intervals and alignment
+            t2 = str(g1.to_gfa2())
+            _, r2 = oracle.parse_text(t2, "gfa2")
+            e0 = [l.split("\t") for l in lines if l.startswith("E")][0]
+            e2 = [x for x in r2 if x.rt == "E"]
+            def norm(f):      # (oriented segments with their intervals) as a set + alignment in sid1->sid2 reading
+                return frozenset([(f[2], f[4], f[5]), (f[3], f[6], f[7])])
+            if len(e2) != 1 or norm(["E"] + e2[0].pos) != norm(e0):
+                fail("e-round-trip-intervals-differ", "%s -> %s" % (e0, [x.pos for x in e2]))
+    except gfapy.Error as e:
+        fail("e-to-gfa1:raises-%s" % type(e).__name__, harness.short(e, 200))
+    except Exception as e:
+        fail("e-to-gfa1:foreign-%s" % type(e).__name__, harness.short(e, 200))
+    return dict(key=tuple(lines), nontrivial=True, failures=fails, sample=dict(lines=lines))
+
+
+def check_any(case):
+    return check_e(case) if case[0] == "E" else check(case)
+
+
 def check(case):
     lines, = case
     fails = []
@@ -139,6 +180,31 @@ def cases(tier, seed):
                         for pos in (0, 1, LEN[a] - oracle.cigar_len_ref(cg)):
                             if a != b and pos >= 0 and oracle.cigar_len_qry(cg) == LEN[b] or (a != b and pos >= 0 and cg in ("3M", "6M")):
                                 out.append((segs + ["C\t%s\t%s\t%s\t%s\t%d\t%s" % (a, oa, b, ob, pos, cg)],))
+    # GFA2-origin edges: sid1 is the GFA1 'to' segment (dovetail) or the contained segment
+    S2 = {"A": "S\tA\t8\t*", "B": "S\tB\t8\t*", "C": "S\tC\t6\t*"}
+    for cg in CIG[:5]:
+        ref, qry = oracle.cigar_len_ref(cg), oracle.cigar_len_qry(cg)
+        for o1 in "+-":
+            for o2 in "+-":
+                # dovetail with sid1 = to: oriented sid1 overlaps with its prefix, oriented sid2 with its suffix
+                i1 = ("0", str(ref)) if o1 == "+" else (str(8 - ref), "8$")
+                i2 = (str(8 - qry), "8$") if o2 == "+" else ("0", str(qry))
+                e = "E\tx1\tA%s\tB%s\t%s\t%s\t%s\t%s\t%s" % (o1, o2, i1[0], i1[1], i2[0], i2[1], cg)
+                out.append(("E", [S2["A"], S2["B"], e], ["L", "B", o2, "A", o1, oracle.cigar_complement(cg)]))
+                # and the usual order for control
+                j1 = (str(8 - ref), "8$") if o1 == "+" else ("0", str(ref))
+                j2 = ("0", str(qry)) if o2 == "+" else (str(8 - qry), "8$")
+                e = "E\tx2\tA%s\tB%s\t%s\t%s\t%s\t%s\t%s" % (o1, o2, j1[0], j1[1], j2[0], j2[1], cg)
+                out.append(("E", [S2["A"], S2["B"], e], ["L", "A", o1, "B", o2, cg]))
+        # containment with sid1 contained: C (6) whole inside A (8) at offset 1; alignment reference = C (sid1)
+    for cg, off in (("6M", 1), ("3M1D3M", 0), ("2M1I3M", 2)):
+        ref, qry = oracle.cigar_len_ref(cg), oracle.cigar_len_qry(cg)
+        if ref != 6:
+            continue
+        for o1 in "+-":
+            for o2 in "+-":
+                e = "E\tx3\tC%s\tA%s\t0\t6$\t%d\t%d\t%s" % (o1, o2, off, off + qry, cg)
+                out.append(("E", [S2["A"], S2["C"], e], ["C", "A", o2, "C", o1, str(off), oracle.cigar_complement(cg)]))
     # paths over chains
     n = 150 if tier == "quick" else 1500
     for _ in range(n):
@@ -161,7 +227,7 @@ def cases(tier, seed):
 if __name__ == "__main__":
     tier, seed = harness.args()
     cs = cases(tier, seed)
-    res = harness.run(cs, check,
+    res = harness.run(cs, check_any,
                       rule="GFA1 graphs with known segment lengths: every orientation pair x (A-B, B-C, self A-A, C-A) x 8 CIGARs (asymmetric, full-length) as named/unnamed link, containments at offset 0/1/flush right, "
                            "and seeded chains with a path (forward, reverse over complements, two-segment, single-segment); whole-graph to_gfa2(): converted text valid at vlevel 3, segments keep length/sequence/tags, "
                            "every E line has the oracle coordinates ($ exactly at a segment's end) and the same alignment, paths visit the same oriented segments; to_gfa1() of the result equals the original "
